@@ -6,6 +6,7 @@ import (
 	"sort"
 	"strings"
 	"testing"
+	"testing/synctest"
 
 	"github.com/bitcoin-sv/block-headers-service/domains"
 	"github.com/bitcoin-sv/block-headers-service/internal/chaincfg/chainhash"
@@ -358,6 +359,10 @@ func TestCheck(t *testing.T) {
 	env := core.GetEnv()
 	rep := core.NewReport(env, "schedwalk")
 	defer func() { rep.Write(env.Out) }()
+	if env.Replay != "" {
+		replaySched(t, env, rep)
+		return
+	}
 	switch env.Prop {
 	case "C15":
 		checkC15(t, env, rep)
@@ -464,4 +469,59 @@ func forky(b core.Blueprint) bool {
 		}
 	}
 	return false
+}
+
+// replaySched re-executes exactly one recorded schedule of C15 / C11 (three times: the
+// observations must be identical).
+func replaySched(t *testing.T, env core.Env, rep *core.Report) {
+	rep.Bound = "replay of " + env.Replay
+	if env.Prop == "C15" {
+		var rf struct {
+			Replay struct {
+				Scenario c15scenario `json:"scenario"`
+				Prefix   []int       `json:"schedule_prefix"`
+			} `json:"replay"`
+		}
+		core.ReadJSON(env.Replay, &rf)
+		u := core.Fabricate(rf.Replay.Scenario.B, 0)
+		for i := 0; i < 3; i++ {
+			before := fmt.Sprint(rep.ViolationCounts)
+			r := rep
+			if i > 0 {
+				r = core.NewReport(env, "schedwalk")
+			}
+			runC15(r, rf.Replay.Scenario, u, rf.Replay.Prefix, map[string]bool{}, nil)
+			rep.Executions++
+			if i > 0 {
+				rep.Rechecked++
+				if fmt.Sprint(r.ViolationCounts) != fmt.Sprint(rep.ViolationCounts) {
+					rep.HarnessError("replay is not deterministic: " + before)
+				}
+			}
+		}
+		rep.Evaluations, rep.States = 1, 1
+		return
+	}
+	var rf struct {
+		Replay struct {
+			Scenario c11scenario `json:"scenario"`
+			Prefix   []int       `json:"schedule_prefix"`
+		} `json:"replay"`
+	}
+	core.ReadJSON(env.Replay, &rf)
+	for i := 0; i < 3; i++ {
+		r := rep
+		if i > 0 {
+			r = core.NewReport(env, "schedwalk")
+		}
+		synctest.Test(t, func(*testing.T) { runC11(r, rf.Replay.Scenario, rf.Replay.Prefix, nil) })
+		rep.Executions++
+		if i > 0 {
+			rep.Rechecked++
+			if fmt.Sprint(r.ViolationCounts) != fmt.Sprint(rep.ViolationCounts) {
+				rep.HarnessError("replay is not deterministic")
+			}
+		}
+	}
+	rep.Evaluations, rep.States = 1, 1
 }
